@@ -75,7 +75,8 @@ def gen_history(rng, qu_ok, n_items=None):
             elif kind == "short":
                 data = bytes(rng.randrange(256) for _ in range(rng.choice([0, 1, 3, 11])))
             else:
-                data = bytes([k]) * rng.choice([8967, 9000])
+                # (8966 bytes is the largest datagram that is still looked at: it is parsed -- here: rejected -- and remembered)
+                data = bytes([k]) * rng.choice([8966, 8967, 9000])
             items.append({"gap": gap, "data": data, "src": (QUERIER, 5353), "kind": kind})
             continue
         if r < 0.60:
@@ -139,6 +140,11 @@ def gen_case(seed, idx, qu_ok):
         "start": rng.choice([1, 40, 400, 2000, 31000, 100000, 1200000, 2000000]),
         # PTR/TXT TTL of the registered services (below the 1125 s PTR floor of the cache in two of three cases with a value)
         "other_ttl": rng.choice([None, None, 60, 300, 4500]),
+        # the registry changes under the traffic: with two services on one host, the second is unregistered again right after the
+        # registrations (its goodbye must leave the host's address / NSEC records alone: the first service still uses them); the host
+        # name is spelled with capitals in half of the cases (every look-up by host is case-insensitive)
+        "unregister_one": rng.random() < 0.4,
+        "server": rng.choice(["ha.local.", "ha.local.", "Ha.Local.", "HA.local."]),
         # the socket hands over 4-tuple sources, as an IPv6 socket does
         "v6_tuple": rng.random() < 0.25,
         "maxdelay": rng.choice([0, 5, 20]),
@@ -149,6 +155,19 @@ def gen_case(seed, idx, qu_ok):
     }
     if case["dup_gap"]:
         case["lookup"] = False   # (a lookup's wake-ups tie with arrivals at round instants; the order of same-instant timers is unspecified)
+    if qu_ok and rng.random() < 0.08:
+        # family "shared host": two services on one (mixed-case) host, one of them unregistered again, and -- while the host's
+        # address record is still recent -- a QU query for the address: a unicast answer per copy, nothing multicast
+        from zeroconf import DNSOutgoing, DNSQuestion, const
+
+        out = DNSOutgoing(const._FLAGS_QR_QUERY)
+        q = DNSQuestion(rng.choice(["ha.local.", "HA.LOCAL."]), rng.choice([const._TYPE_A, const._TYPE_A, const._TYPE_ANY]), const._CLASS_IN)
+        q.unicast = True
+        out.add_question(q)
+        data = bytearray(out.packets()[0])
+        data[0], data[1] = 0xEE, rng.randrange(256)
+        case.update(n_services=2, unregister_one=True, server=rng.choice(["Ha.Local.", "HA.local.", "hA.local."]), start=rng.choice([1, 40, 400, 2000]))
+        case["items"].insert(rng.choice([0, 0, 1]), {"gap": rng.choice([0, 1, 100, 1001]), "data": bytes(data).hex(), "src": [QUERIER, 5353], "kind": "query-qu-host"})
     return case
 
 
@@ -258,7 +277,16 @@ def ident(r):
     return (r.name.lower(), r.type, r.class_, rd)
 
 
-def shadow_apply(shadow, data, now):
+def owned_idents(zc):
+    """identities of the records the instance currently answers with (its registry)"""
+    out = set()
+    for info in zc.registry.async_get_service_infos():
+        for r in [info.dns_pointer(), info.dns_service(), info.dns_text()] + list(info.get_address_and_nsec_records()):
+            out.add(ident(r))
+    return out
+
+
+def shadow_apply(shadow, data, now, own=None):
     """an arrival history of our own (RFC 6762 section 10 as the record manager applies it): when each record was last
     heard and with which TTL -- PTR floor 1125 s, goodbyes remove, a cache-flush record makes the other records of its
     name/type/class that are older than 1 s expire in 1 s.  It decides, independently of the implementation's cache,
@@ -280,7 +308,11 @@ def shadow_apply(shadow, data, now):
         k = ident(r)
         if ttl > 0:
             shadow[k] = (now, ttl)
-        elif k in shadow:
+        elif k in shadow and not (own is not None and k in own):
+            # (`own`: the datagram is the instance's own looped-back multicast and the record is one a registered service of
+            # the instance still stands for: a goodbye for it is not a withdrawal the instance may rely on -- its last multicast
+            # with a positive TTL stays the reference for "multicast within a quarter of its TTL".  A correct instance never
+            # sends such a goodbye, so nothing changes there.)
             removes.append(k)
     for k, v in list(shadow.items()):
         if k[:3] in uniq and k not in here and now - v[0] > 1000:
@@ -529,7 +561,7 @@ def simulate(case, dupmask, skip_d11=False):
             obs["lblocks"].append({"op": "recv", "t": sim.now(), "data": data.hex(), "addr": src[0], "port": src[1], "entries": entries,
                                    "tcdraw": tcdraw[0] if tcdraw else None, "tag": tag, "timers": timers_of(lst), "deferred": deferred_of(lst)})
             if processed and tag == "response":
-                shadow_apply(shadow, data, float(sim.loop.ms))
+                shadow_apply(shadow, data, float(sim.loop.ms), own=owned_idents(zc) if src[0] == "10.0.0.1" else None)
             return processed
 
         def deliver(data, src):
@@ -602,10 +634,13 @@ def simulate(case, dupmask, skip_d11=False):
                 pass
 
         ttl_kw = {} if not case.get("other_ttl") else {"other_ttl": case["other_ttl"]}
-        infos = [ServiceInfo(TA, "s%d.%s" % (i + 1, TA), 80 + i, addresses=[socket.inet_aton("10.0.0.1")], server="ha.local.",
+        infos = [ServiceInfo(TA, "s%d.%s" % (i + 1, TA), 80 + i, addresses=[socket.inet_aton("10.0.0.1")], server=case.get("server", "ha.local."),
                              properties={"k": "v%d" % i}, **ttl_kw) for i in range(case["n_services"])]
         for info in infos:
             t = await zc.async_register_service(info)
+            await t
+        if case.get("unregister_one") and len(infos) > 1:
+            t = await zc.async_unregister_service(infos[-1])
             await t
         zc.async_add_listener(RUL(), None)
         browsers = [AsyncServiceBrowser(zc, [TB], listener=L("l")), AsyncServiceBrowser(zc, [TB, TA] if case["browse_own"] else [TB], handlers=[handler])]
